@@ -12,6 +12,8 @@ import (
 	"go/constant"
 	"go/token"
 	"go/types"
+	"strings"
+	"unicode/utf8"
 
 	"golang.org/x/tools/go/ssa"
 )
@@ -320,6 +322,57 @@ func (ev *enumEval) eval(fr *frame, v ssa.Value) (any, bool) {
 					return ch >= '0' && ch <= '9', true
 				default:
 					return ch == ' ' || ch == '\t' || ch == '\n' || ch == '\r' || ch == '\v' || ch == '\f', true
+				}
+			}
+		}
+		if f != nil && !inModule(f) && len(x.Call.Args) == 2 && (f.String() == "strings.ContainsRune" || f.String() == "strings.IndexRune" || f.String() == "strings.IndexByte") {
+			// membership of a rune in a constant string (strings.IndexRune documents −1 for an invalid rune)
+			if set, isC := constStringVal(ev.c.resolve(x.Call.Args[0], nil)); isC && utf8.ValidString(set) {
+				av, ok := ev.eval(fr, x.Call.Args[1])
+				if !ok {
+					return nil, false
+				}
+				rv, isInt := av.(int64)
+				if !isInt {
+					ev.undecided("non-integer rune")
+					return nil, false
+				}
+				idx := int64(-1)
+				if rv >= 0 && rv != utf8.RuneError && utf8.ValidRune(rune(rv)) {
+					idx = int64(strings.IndexRune(set, rune(rv)))
+				}
+				if f.String() == "strings.ContainsRune" {
+					return idx >= 0, true
+				}
+				return idx, true
+			}
+		}
+		if f != nil && !inModule(f) && len(x.Call.Args) == 2 && (strings.HasPrefix(f.String(), "slices.Contains[") || strings.HasPrefix(f.String(), "slices.Index[")) {
+			// membership in a package-level slice literal of enum constants
+			if g := ev.c.globalBehind(x.Call.Args[0], nil); g != nil {
+				if arr := ev.c.globalSliceArray(g); arr != nil && ev.c.onlyInitWrites(g) {
+					if elems := localArrayElems(arr); elems != nil {
+						want, ok := ev.eval(fr, x.Call.Args[1])
+						if !ok {
+							return nil, false
+						}
+						wn, isInt := want.(int64)
+						idx := int64(-1)
+						for i, el := range elems {
+							n, isC := constIntVal(el)
+							if !isC || !isInt {
+								ev.undecided("non-constant element in %s", g.Name())
+								return nil, false
+							}
+							if n == wn && idx < 0 {
+								idx = int64(i)
+							}
+						}
+						if strings.HasPrefix(f.String(), "slices.Contains[") {
+							return idx >= 0, true
+						}
+						return idx, true
+					}
 				}
 			}
 		}
